@@ -14,7 +14,7 @@ RULE = ('a seeded generator draws abstract messages (headers: SPIs, exchange typ
         'binary data, AUTH, NONCE 16..256, NOTIFY, DELETE with 0-5 SPIs, VENDOR text/binary, TSi/TSr with 1-4 IPv4/IPv6 selectors, unknown payload types). '
         'Oracles: (1) objects built through the library CONSTRUCTORS from the abstract content serialise to exactly the bytes of the independent '
         'encoder (clear; and inside SK: decrypted inner bytes and outer framing compared by the reference); (2) parsing the reference bytes '
-        'yields the abstract content again, field by field; (3) to_bytes(parse(x)) is a fixed point for every accepted x (generated, and accepted '
+        'yields the abstract content again, field by field (protected messages also with 1-15 extra blocks of zero / non-zero padding, Pad Length up to 255, RFC 7296 3.14); (3) to_bytes(parse(x)) is a fixed point for every accepted x (generated, and accepted '
         'mutants of them); (4) unknown non-critical payloads are skipped leaving the others intact, unknown critical ones raise '
         'UnsupportedCriticalPayload, a chain that ends before / after the end of the data (truncation, trailing octets, last length +-k) raises '
         'InvalidSyntax whenever the reference says the chain does not tile the data; (5) to_dict()/json dump lists the payload types in order and '
@@ -259,6 +259,23 @@ def run(ck):
                     where = 'not-authentic-under-the-reference'
                 ck.violation(f'protected-serialisation-differs-from-reference:{where}', case, case)
             data = ref
+            # RFC 7296 3.14: "the recipient MUST accept any length that results in proper alignment": the same content behind 1..15 extra blocks of padding
+            if i % 6 == 0:
+                base_pad = (16 - (len(ref_inner) + 1) % 16) % 16
+                first = m['payloads'][0]['type'] if m['payloads'] else 0
+                for extra in sorted({1, 2, rng.randrange(1, 15), (255 - base_pad) // 16}):
+                    pl = base_pad + 16 * extra
+                    if pl > 255:
+                        continue
+                    padded = ikecrypto.sk_seal(hdr, None, iid, sk_a, sk_e, gen.rb(rng, 16), inner_raw=ref_inner, inner_first=first, padlen=pl,
+                                               pad_fill=None if extra % 2 else gen.rb(rng, 7))
+                    ck.count('decode.extra_padding')
+                    try:
+                        pp = M.Message.parse(padded, header_only=False, crypto=crypto)
+                        if [abstract_of(o) for o in pp.encrypted_payloads] != [strip(p_) for p_ in m['payloads']]:
+                            ck.violation('content-behind-extra-padding-parsed-differently', {'pad_length': pl, **case}, case)
+                    except Exception as ex:
+                        ck.violation(f'authentic-message-with-more-than-minimal-padding-rejected:{type(ex).__name__}', {'pad_length': pl, 'exc': repr(ex)[:160], **case}, case)
         # ---- (6) a Message is mutable and the daemon edits one it already serialised (COOKIE retry): the next to_bytes() must describe the edited content
         if i % 4 == 0:
             edited(ck, rng, m, objs, crypto, iv if enc else None, i, case)
@@ -421,6 +438,7 @@ def verdict(ck):
     for t in (33, 34, 35, 36, 39, 40, 41, 42, 43, 44, 45):
         ck.floor(f'payload type {t} instances', c[f'payloads.type{t}'], 200)
     ck.floor('messages serialised again after an edit', sum(v for k, v in c.items() if k.startswith('edited.')), 800)
+    ck.floor('protected messages with more than minimal padding parsed', c['decode.extra_padding'], 500)
     ck.floor('encrypted messages', c['encode.sk_compared'], 500)
     ck.floor('multi-proposal SAs with SPIs', c['payloads.multi_proposal_sa_with_spi'], 100)
     ck.floor('IPv6 selectors', c['payloads.ipv6_selectors'], 100)
